@@ -14,7 +14,13 @@ type typestate struct {
 	trans  func(in ssa.Instruction, st int) int
 	// edge may refine/transform the state on edge b -> succ (index si); nil = identity
 	edge func(b *ssa.BasicBlock, si int, st int) int
-	in   map[*ssa.BasicBlock]uint16
+	// set-valued variants (a call that may leave several states; an edge that keeps several): used when non-nil
+	transSet func(in ssa.Instruction, st int) uint16
+	edgeSet  func(b *ssa.BasicBlock, si int, st int) uint16
+	in       map[*ssa.BasicBlock]uint16
+	// successOnly: do not follow edges from which the function can only return a non-nil error (errorEdge); the states
+	// at a return fed by a single exit are then those of its success paths
+	successOnly bool
 }
 
 func (ts *typestate) run() map[ssa.Instruction]uint16 {
@@ -34,14 +40,28 @@ func (ts *typestate) run() map[ssa.Instruction]uint16 {
 			var nxt uint16
 			for s := 0; s < ts.nstate; s++ {
 				if cur&(1<<uint(s)) != 0 {
-					nxt |= 1 << uint(ts.trans(in, s))
+					if ts.transSet != nil {
+						nxt |= ts.transSet(in, s)
+					} else {
+						nxt |= 1 << uint(ts.trans(in, s))
+					}
 				}
 			}
 			cur = nxt
 		}
 		for si, sc := range b.Succs {
+			if ts.successOnly && errorEdge(b, si) {
+				continue // from here the function can only fail: not a success path
+			}
 			out := cur
-			if ts.edge != nil {
+			if ts.edgeSet != nil {
+				out = 0
+				for s := 0; s < ts.nstate; s++ {
+					if cur&(1<<uint(s)) != 0 {
+						out |= ts.edgeSet(b, si, s)
+					}
+				}
+			} else if ts.edge != nil {
 				out = 0
 				for s := 0; s < ts.nstate; s++ {
 					if cur&(1<<uint(s)) != 0 {
